@@ -21,8 +21,15 @@ import time
 import traceback
 
 VERIF = os.path.dirname(os.path.dirname(os.path.abspath(__file__)))
-LEAN = os.path.join(VERIF, 'lean')
 OUT = os.path.join(VERIF, 'out')
+LEAN = os.path.join(VERIF, 'lean')
+if os.path.realpath(os.environ.get('VERIF_REPO', '/repo')) != '/repo':
+    # mutation experiment against another checkout: use a private copy of the lake project (incl. its build cache), so
+    # that regenerated Generated/*.lean files and builds do not disturb checks of the real /repo running at the same time
+    _key = hashlib.sha1(os.path.realpath(os.environ['VERIF_REPO']).encode()).hexdigest()[:10]
+    LEAN = os.path.join(OUT, 'lean_mut_' + _key)
+    os.makedirs(OUT, exist_ok=True)
+    subprocess.run(['rsync', '-a', '--delete', os.path.join(VERIF, 'lean') + '/', LEAN + '/'], check=True)
 REPLAYS = os.path.join(OUT, 'replays')
 EVIDENCE = os.path.join(VERIF, 'evidence')
 GENERATED = os.path.join(LEAN, 'SdcModel', 'Generated')
